@@ -346,17 +346,32 @@ def rule_lattice(prog: Program) -> List[Instance]:
         out.append(Instance("R-LATTICE", f"{gi.qual}#empty-normalisation", BAD, "intersection of disjoint geoboxes is no longer normalised to an empty geobox on both axes", gi.where()))
     for q in ("geobox:geobox_union_conservative", "geobox:geobox_intersection_conservative"):
         f = prog.func(q)
+        stream = f.param_names()[0]
+        # reference = first element of the stream; box = result of the bbox fold
+        ref = box = None
+        for n in walk_own(f.node):
+            if isinstance(n, ast.Assign) and isinstance(n.targets[0], ast.Tuple) and n.targets[0].elts and isinstance(n.targets[0].elts[0], ast.Name) and short(n.value) == stream:
+                ref = n.targets[0].elts[0].id
+            if isinstance(n, ast.Assign) and isinstance(n.targets[0], ast.Name) and isinstance(n.value, ast.Call) and call_name(n.value) in ("bbox_union", "bbox_intersection"):
+                box = n.targets[0].id
+        if ref is None or box is None:
+            out.append(Instance("R-LATTICE", f"{q}#origin", UNDET, "reference geobox / folded box not identified", f.where()))
+            continue
+        want_fold = "bbox_union" if "union" in q else "bbox_intersection"
+        fold_ok = any(isinstance(n, ast.Call) and call_name(n) == want_fold for n in walk_own(f.node))
+        out.append(Instance("R-LATTICE", f"{q}#fold", OK if fold_ok else BAD, f"pixel boxes folded with {want_fold}" if fold_ok else f"{f.name} does not fold the pixel boxes with {want_fold}", f.where()))
         for n in walk_own(f.node):
             if isinstance(n, ast.Call) and call_name(n) == "translation" and n.args and isinstance(n.args[0], ast.Starred):
-                ok = short(n.args[0].value).endswith("[:2]")
+                v = n.args[0].value
+                ok = isinstance(v, ast.Subscript) and short(v.value) == box and isinstance(v.slice, ast.Slice) and v.slice.lower is None and const_num(v.slice.upper) == 2
                 p = parent(n)
-                ok = ok and isinstance(p, ast.BinOp) and isinstance(p.op, ast.Mult) and p.right is n and short(p.left) == "reference.affine"
-                out.append(Instance("R-LATTICE", f"{q}#origin", OK if ok else BAD, "result origin = reference.affine * translation(left, bottom of the pixel box)" if ok else f"result origin computed as `{short(p)}`", f.where(n)))
+                ok = ok and isinstance(p, ast.BinOp) and isinstance(p.op, ast.Mult) and p.right is n and names_in(p.left) == {ref}
+                out.append(Instance("R-LATTICE", f"{q}#origin", OK if ok else BAD, "result origin = reference affine * translation(left, bottom of the folded pixel box)" if ok else f"result origin computed as `{short(p)}`", f.where(n)))
         for n in walk_own(f.node):
             if isinstance(n, ast.Return) and isinstance(n.value, ast.Call) and call_name(n.value) == "GeoBox":
-                kws = {k.arg: short(k.value) for k in n.value.keywords}
-                ok = kws.get("shape") == "bbox.shape" and kws.get("crs") == "reference.crs" and kws.get("affine") == "affine"
-                out.append(Instance("R-LATTICE", f"{q}#result", OK if ok else BAD, "GeoBox(shape=bbox.shape, affine=affine, crs=reference.crs)" if ok else f"result built from {kws}", f.where(n)))
+                kws = {k.arg: k.value for k in n.value.keywords}
+                ok = "shape" in kws and names_in(kws["shape"]) == {box} and "crs" in kws and names_in(kws["crs"]) == {ref}
+                out.append(Instance("R-LATTICE", f"{q}#result", OK if ok else BAD, "result shape from the folded box, CRS from the reference" if ok else f"result built from {({k: short(v) for k, v in kws.items()})}", f.where(n)))
     return out
 
 
@@ -538,18 +553,27 @@ def rule_fill(prog: Program) -> List[Instance]:
     out.append(Instance("R-FILL", f"{dr.qual}#uncovered-chunk-fill", OK if ok else BAD,
                         "uncovered chunks use resolve_fill_value(dst_nodata, src_nodata, dtype)" if ok else "uncovered chunks do not use resolve_fill_value(dst_nodata, src_nodata, ...)", dr.where()))
     full = [n for n in walk_own(dr.node) if isinstance(n, ast.Tuple) and n.elts and short(n.elts[0]) in ("np.full", "numpy.full")]
-    ok = bool(full) and len(full[0].elts) >= 3 and short(full[0].elts[2]) == "fill_value"
+    fv_name = None
+    for n in walk_own(dr.node):
+        if isinstance(n, ast.Assign) and isinstance(n.targets[0], ast.Name) and isinstance(n.value, ast.Call) and call_name(n.value) == "resolve_fill_value":
+            fv_name = n.targets[0].id
+    ok = bool(full) and len(full[0].elts) >= 3 and fv_name is not None and short(full[0].elts[2]) == fv_name
     out.append(Instance("R-FILL", f"{dr.qual}#uncovered-chunk-task", OK if ok else BAD, "chunk without sources is (np.full, shape, fill_value, dtype)" if ok else "chunk without sources is not a constant fill block", dr.where()))
     get = [n for n in walk_own(dr.node) if isinstance(n, ast.Call) and call_name(n) == "get" and "d2s" in short(n.func)]
-    ok = bool(get) and len(get[0].args) == 2 and isinstance(get[0].args[1], ast.List) and not get[0].args[1].elts and short(get[0].args[0]) == "(y, x)"
-    out.append(Instance("R-FILL", f"{dr.qual}#missing-deps-default", OK if ok else BAD, "missing dependency entry means no sources" if ok else "dependency lookup no longer defaults to an empty source list keyed by (y, x)", dr.where()))
+    ok = bool(get) and len(get[0].args) == 2 and isinstance(get[0].args[1], (ast.List, ast.Tuple)) and not get[0].args[1].elts
+    out.append(Instance("R-FILL", f"{dr.qual}#missing-deps-default", OK if ok else BAD, "missing dependency entry means no sources" if ok else "dependency lookup no longer defaults to an empty source list", dr.where()))
     # direction: destination tiles intersect source tiles
     gi = [n for n in walk_own(dr.node) if isinstance(n, ast.Call) and call_name(n) == "grid_intersect"]
-    ok = bool(gi) and isinstance(gi[0].func, ast.Attribute) and "dst" in short(gi[0].func.value) and "src" in short(gi[0].args[0])
+    ok = False
+    if gi and isinstance(gi[0].func, ast.Attribute) and gi[0].args:
+        org_d = Origins(dr)
+        pp_d = dr.param_names()  # (src, s_gbox, d_gbox, ...)
+        recv_deps, arg_deps = org_d.deps(gi[0].func.value), org_d.deps(gi[0].args[0])
+        ok = pp_d[2] in recv_deps and pp_d[1] in arg_deps and pp_d[2] not in arg_deps
     out.append(Instance("R-FILL", f"{dr.qual}#dependency-direction", OK if ok else BAD, "dependencies computed as dst.grid_intersect(src)" if ok else "tile dependency graph computed in the wrong direction", dr.where()))
     # _xr_reproject_da: dst_nodata defaults to src_nodata before either path
     xd = prog.func("_xr_interop:_xr_reproject_da")
-    ok = any(isinstance(n, ast.If) and short(n.test) == "dst_nodata is None" and any(isinstance(a, ast.Assign) and short(a) == "dst_nodata = src_nodata" for a in n.body) for n in xd.node.body)
+    ok = any(isinstance(n, ast.If) and short(n.test) == "dst_nodata is None" and any(isinstance(a, ast.Assign) and short(a.targets[0]) == "dst_nodata" and isinstance(a.value, ast.Name) and a.value.id != "dst_nodata" for a in n.body) for n in xd.node.body)
     out.append(Instance("R-FILL", f"{xd.qual}#dst-defaults-to-src-nodata", OK if ok else BAD, "dst_nodata defaults to src_nodata for both the dask and the in-memory path" if ok else "dst_nodata no longer defaults to src_nodata before the path split", xd.where()))
     return out
 
@@ -751,76 +775,142 @@ def rule_keys(prog: Program) -> List[Instance]:
 # ---------------------------------------------------------------------------------------------
 
 
+def _sign_test(e: ast.AST, name: str) -> Optional[bool]:
+    """True if ``e`` tests `name > 0`, False if it tests `name < 0` (either operand order)."""
+    if isinstance(e, ast.Compare) and len(e.ops) == 1:
+        l, r, op = e.left, e.comparators[0], e.ops[0]
+        if isinstance(l, ast.Name) and l.id == name and const_num(r) == 0:
+            if isinstance(op, (ast.Gt, ast.GtE)):
+                return True
+            if isinstance(op, (ast.Lt, ast.LtE)):
+                return False
+        if isinstance(r, ast.Name) and r.id == name and const_num(l) == 0:
+            if isinstance(op, (ast.Lt, ast.LtE)):
+                return True
+            if isinstance(op, (ast.Gt, ast.GtE)):
+                return False
+    return None
+
+
 def rule_signrole(prog: Program) -> List[Instance]:
-    """Positive resolution <-> lower edge of the interval; negative <-> upper edge."""
+    """Positive resolution <-> lower edge of the interval; negative <-> upper edge.  Intervals are
+    recognised through `lo, hi = <subscript/call>` unpacking and parameter positions, not names."""
+    from .axis import Beliefs
+
     out: List[Instance] = []
-    # gridspec._tile_txy:  x0, x1 = self._xbin[ix];  tx = x0 if rx > 0 else x1
     f = prog.func("gridspec:GridSpec._tile_txy")
-    pairs: Dict[str, Tuple[str, str]] = {}
+    bel = Beliefs(f)
+    pairs: Dict[str, Tuple[str, str, ast.AST]] = {}
     for n in walk_own(f.node):
         if isinstance(n, ast.Assign) and isinstance(n.targets[0], ast.Tuple) and len(n.targets[0].elts) == 2 and isinstance(n.value, ast.Subscript):
             lo, hi = [short(e) for e in n.targets[0].elts]
-            pairs[lo] = (lo, hi)
+            pairs[lo] = (lo, hi, n.value)
+            pairs[hi] = (lo, hi, n.value)
     n_i = 0
     for n in walk_own(f.node):
-        if isinstance(n, ast.Assign) and isinstance(n.value, ast.IfExp) and isinstance(n.value.test, ast.Compare):
+        if isinstance(n, ast.Assign) and isinstance(n.value, ast.IfExp) and isinstance(n.value.test, ast.Compare) and isinstance(n.value.test.left, ast.Name):
             t = n.value.test
+            pos = _sign_test(t, t.left.id)
             b, o = short(n.value.body), short(n.value.orelse)
-            pos = isinstance(t.ops[0], ast.Gt) and const_num(t.comparators[0]) == 0
-            neg = isinstance(t.ops[0], ast.Lt) and const_num(t.comparators[0]) == 0
-            axis = short(n.targets[0])[-1]
-            res_axis = short(t.left)[-1]
-            ok_pair = (b in pairs and pairs[b] == (b, o)) if pos else ((o in pairs and pairs[o] == (o, b)) if neg else False)
-            ok = ok_pair and axis == res_axis and b[0] == axis
+            if pos is None or b not in pairs or o not in pairs or pairs[b][:2] != pairs[o][:2]:
+                continue
+            lo, hi, src_expr = pairs[b]
+            chosen_when_pos = b if pos else o
+            ok = chosen_when_pos == lo and {b, o} == {lo, hi}
+            # resolution, interval and result must be of one axis (naming belief / attribute axis)
+            from .axis import AxisTyper
+            ty = AxisTyper(f, bel, prog)
+            axes = {ty.tag(t.left), ty.tag(n.targets[0]), ty.tag(src_expr.value), ty.tag(src_expr.slice)}
+            axes.discard(None)
+            ok_axis = len(axes) <= 1
             n_i += 1
-            out.append(Instance("R-SIGNROLE", f"{f.qual}#{short(n.targets[0])}", OK if ok else BAD,
-                                f"`{short(n)}`: positive resolution starts at the lower edge" if ok else f"`{short(n)}`: edge choice does not follow the sign of the same-axis resolution", f.where(n)))
+            out.append(Instance("R-SIGNROLE", f"{f.qual}#edge:{short(n.targets[0])}", OK if ok and ok_axis else BAD,
+                                f"`{short(n)}`: positive resolution starts at the lower edge of its own axis' interval" if ok and ok_axis
+                                else (f"`{short(n)}`: positive resolution must pick the lower edge `{lo}`, negative the upper edge `{hi}`" if not ok else f"`{short(n)}` mixes axes {sorted(axes)}"), f.where(n)))
     if n_i < 2:
         out.append(Instance("R-SIGNROLE", f"{f.qual}#edges", UNDET, "expected two sign-dependent edge choices", f.where()))
-    # bins paired with the same axis index:  self._xbin[ix], self._ybin[iy]
-    for n in walk_own(f.node):
-        if isinstance(n, ast.Subscript) and isinstance(n.value, ast.Attribute) and n.value.attr in ("_xbin", "_ybin"):
-            ok = short(n.slice) == "i" + n.value.attr[1]
-            out.append(Instance("R-SIGNROLE", f"{f.qual}#{n.value.attr}-index", OK if ok else BAD, f"{n.value.attr}[{short(n.slice)}]" if ok else f"{n.value.attr} indexed with `{short(n.slice)}`", f.where(n)))
-    # math._snap_edge: res > 0 -> positive path; else tx = _tx + nx * (-res)
+
+    # math._snap_edge(x0, x1, res, tol)
     se = prog.func("math:_snap_edge")
-    ifs = [n for n in se.node.body if isinstance(n, ast.If)]
-    ok = bool(ifs) and short(ifs[0].test) == "res > 0" and isinstance(ifs[0].body[0], ast.Return) and has_call(ifs[0].body[0], "_snap_edge_pos")
-    neg_call = [n for n in walk_own(se.node) if isinstance(n, ast.Call) and call_name(n) == "_snap_edge_pos" and len(n.args) >= 3 and short(n.args[2]) == "-res"]
-    tx = [n for n in walk_own(se.node) if isinstance(n, ast.Assign) and short(n.targets[0]) == "tx"]
-    ok = ok and bool(neg_call) and bool(tx) and short(tx[0].value).replace(" ", "") in ("_tx+nx*-res", "_tx+nx*(-res)", "_tx-nx*res")
-    out.append(Instance("R-SIGNROLE", f"{se.qual}#negative-resolution", OK if ok else BAD,
-                        "negative resolution snaps with |res| and starts at the upper edge (_tx + nx*|res|)" if ok else "negative-resolution branch of _snap_edge no longer starts at the upper edge", se.where()))
-    # snap_grid, off_pix None:  res>0 -> x0 ; else -> x1
+    pp = se.param_names()
+    resp = pp[2]
+    cond = Conditions(se.body)
+    pos_ok = neg_ok = False
+    for n in walk_own(se.node):
+        if isinstance(n, ast.Call) and call_name(n) == "_snap_edge_pos" and len(n.args) >= 3:
+            st = enclosing_stmt(n)
+            cs = conds_at(cond, st)
+            sign = None
+            for e, p in cs:
+                stt = _sign_test(e, resp)
+                if stt is not None:
+                    sign = stt if p else (not stt)
+            a2 = n.args[2]
+            if sign is True:
+                pos_ok = isinstance(a2, ast.Name) and a2.id == resp and isinstance(st, ast.Return)
+            elif sign is False:
+                negated = isinstance(a2, ast.UnaryOp) and isinstance(a2.op, ast.USub) and short(a2.operand) == resp or (isinstance(a2, ast.Call) and call_name(a2) == "abs")
+                # returned origin = origin of the positive snap + count * |res|
+                tg = st.targets[0] if isinstance(st, ast.Assign) and isinstance(st.targets[0], ast.Tuple) else None
+                if negated and tg is not None and len(tg.elts) == 2:
+                    o_nm, c_nm = short(tg.elts[0]), short(tg.elts[1])
+                    for r in (x for x in walk_own(se.node) if isinstance(x, ast.Return) and x is not st):
+                        first = r.value.elts[0] if isinstance(r.value, ast.Tuple) and r.value.elts else None
+                        if first is None:
+                            continue
+                        deps = set(names_in(first))
+                        for nm in list(deps):
+                            for d in [x.value for x in walk_own(se.node) if isinstance(x, ast.Assign) and short(x.targets[0]) == nm]:
+                                deps |= names_in(d)
+                        if {o_nm, c_nm, resp} <= deps:
+                            neg_ok = True
+    out.append(Instance("R-SIGNROLE", f"{se.qual}#positive-resolution", OK if pos_ok else BAD, "positive resolution snaps directly" if pos_ok else "positive-resolution branch no longer returns the direct snap", se.where()))
+    out.append(Instance("R-SIGNROLE", f"{se.qual}#negative-resolution", OK if neg_ok else BAD,
+                        "negative resolution snaps with |res| and moves the origin to the upper edge (origin + count*|res|)" if neg_ok else "negative-resolution branch does not snap with |res| and shift the origin by count*|res| to the upper edge", se.where()))
+
+    # snap_grid(x0, x1, res, off_pix, tol)
     sg = prog.func("math:snap_grid")
-    rets = []
-    for n in walk_own(sg.node):
-        if isinstance(n, ast.Return) and isinstance(n.value, ast.Tuple) and len(n.value.elts) == 2:
-            rets.append(n)
+    pp = sg.param_names()
+    x0p, x1p, resp, offp = pp[0], pp[1], pp[2], pp[3]
     cond = Conditions(sg.body)
-    for r in rets:
+    for r in (n for n in walk_own(sg.node) if isinstance(n, ast.Return) and isinstance(n.value, ast.Tuple) and len(n.value.elts) == 2):
         cs = conds_at(cond, r)
-        none_branch = any(p and isinstance(e, ast.Compare) and isinstance(e.ops[0], ast.Is) and short(e.left) == "off_pix" for e, p in cs)
+        none_branch = any(p and isinstance(e, ast.Compare) and isinstance(e.ops[0], ast.Is) and short(e.left) == offp for e, p in cs)
         if not none_branch:
             continue
-        pos = any(p and short(e) == "res > 0" for e, p in cs)
-        negp = any((not p) and short(e) == "res > 0" for e, p in cs)
+        sign = None
+        for e, p in cs:
+            stt = _sign_test(e, resp)
+            if stt is not None:
+                sign = stt if p else (not stt)
         first = short(r.value.elts[0])
-        ok = (pos and first == "x0") or (negp and first == "x1")
-        out.append(Instance("R-SIGNROLE", f"{sg.qual}#unsnapped:{'pos' if pos else 'neg'}", OK if ok else BAD,
-                            f"origin {first} for {'positive' if pos else 'negative'} resolution" if ok else f"unsnapped grid with {'positive' if pos else 'negative'} resolution starts at {first}", sg.where(r)))
-    # snapped branch: offset removed before snapping and added back after
+        if sign is None:
+            continue
+        ok = (sign and first == x0p) or ((not sign) and first == x1p)
+        out.append(Instance("R-SIGNROLE", f"{sg.qual}#unsnapped:{'pos' if sign else 'neg'}", OK if ok else BAD,
+                            f"origin {first} for {'positive' if sign else 'negative'} resolution" if ok else f"unsnapped grid with {'positive' if sign else 'negative'} resolution starts at `{first}` instead of `{x0p if sign else x1p}`", sg.where(r)))
+    # snapped branch: the same offset is subtracted from both ends before snapping and added back
     for n in walk_own(sg.node):
-        if isinstance(n, ast.Call) and call_name(n) == "_snap_edge" and len(n.args) >= 2:
-            a = [short(x).replace(" ", "") for x in n.args[:2]]
-            ok = a == ["x0-off", "x1-off"]
-            out.append(Instance("R-SIGNROLE", f"{sg.qual}#anchor-offset-in", OK if ok else BAD, "anchor offset subtracted from both ends before snapping" if ok else f"_snap_edge({a}) does not remove the anchor offset from both ends", sg.where(n)))
-    for r in rets:
-        if short(r.value.elts[0]).replace(" ", "") in ("_tx+off", "off+_tx"):
-            out.append(Instance("R-SIGNROLE", f"{sg.qual}#anchor-offset-out", OK, "anchor offset added back to the snapped origin", sg.where(r)))
-    offd = [n for n in walk_own(sg.node) if isinstance(n, ast.Assign) and short(n.targets[0]) == "off"]
-    ok = bool(offd) and short(offd[0].value).replace(" ", "") in ("off_pix*abs(res)", "abs(res)*off_pix")
-    out.append(Instance("R-SIGNROLE", f"{sg.qual}#anchor-offset-units", OK if ok else BAD, "anchor fraction converted with |res|" if ok else "anchor fraction is not scaled by |res|", sg.where()))
+        if isinstance(n, ast.Call) and call_name(n) == "_snap_edge" and len(n.args) >= 3:
+            a0, a1 = n.args[0], n.args[1]
+            ok = all(isinstance(a, ast.BinOp) and isinstance(a.op, ast.Sub) and isinstance(a.right, ast.Name) for a in (a0, a1))
+            off_nm = a0.right.id if ok else None
+            ok = ok and a1.right.id == off_nm and short(a0.left) == x0p and short(a1.left) == x1p and short(n.args[2]) == resp
+            out.append(Instance("R-SIGNROLE", f"{sg.qual}#anchor-offset-in", OK if ok else BAD, "anchor offset subtracted from both ends before snapping" if ok else f"`{short(n)}` does not remove one anchor offset from both ends", sg.where(n)))
+            if ok:
+                st = enclosing_stmt(n)
+                tg = st.targets[0] if isinstance(st, ast.Assign) and isinstance(st.targets[0], ast.Tuple) else None
+                back = False
+                if tg is not None:
+                    o_nm = short(tg.elts[0])
+                    for r in (x for x in walk_own(sg.node) if isinstance(x, ast.Return) and isinstance(x.value, ast.Tuple)):
+                        fe = r.value.elts[0]
+                        if isinstance(fe, ast.BinOp) and isinstance(fe.op, ast.Add) and {short(fe.left), short(fe.right)} == {o_nm, off_nm}:
+                            back = True
+                out.append(Instance("R-SIGNROLE", f"{sg.qual}#anchor-offset-out", OK if back else BAD, "anchor offset added back to the snapped origin" if back else "anchor offset is not added back to the snapped origin", sg.where(n)))
+                offd = [x.value for x in walk_own(sg.node) if isinstance(x, ast.Assign) and short(x.targets[0]) == off_nm]
+                oku = bool(offd) and isinstance(offd[0], ast.BinOp) and isinstance(offd[0].op, ast.Mult) and offp in names_in(offd[0]) and any(isinstance(x, ast.Call) and call_name(x) == "abs" and resp in names_in(x) for x in ast.walk(offd[0]))
+                out.append(Instance("R-SIGNROLE", f"{sg.qual}#anchor-offset-units", OK if oku else BAD, "anchor fraction converted to CRS units with |res|" if oku else "anchor fraction is not scaled by |res|", sg.where()))
     return out
 
 
@@ -885,12 +975,27 @@ def rule_exhaust(prog: Program) -> List[Instance]:
         if f is None:
             out.append(Instance("R-EXHAUST", f"{q}#axis-orders", UNDET, "function not found", ""))
             continue
-        seen = {c.value for n in walk_own(f.node) if isinstance(n, ast.Compare) for c in ast.walk(n) if isinstance(c, ast.Constant) and isinstance(c.value, str)}
-        rets = [n for n in walk_own(f.node) if isinstance(n, ast.Return)]
-        ok = {"YX", "YXS"} <= seen and len(rets) == 3
-        shapes = [short(r.value).replace(" ", "") for r in rets]
-        ok = ok and shapes[0].endswith("shape.shape") and shapes[1].startswith("(*shape.shape,") and shapes[2].endswith(",*shape.shape)")
-        out.append(Instance("R-EXHAUST", f"{q}#axis-orders", OK if ok else BAD, "YX -> (y,x); YXS -> (y,x,s); SYX -> (s,y,x)" if ok else f"axis-order dispatch returns {shapes}", f.where()))
+        sp = [p for p in f.param_names() if p != "self"][0]
+        cond = Conditions(f.body)
+        got = {}
+        for r in (n for n in walk_own(f.node) if isinstance(n, ast.Return)):
+            axes = [c.value for e, p in conds_at(cond, r) if p and isinstance(e, ast.Compare) and isinstance(e.ops[0], ast.Eq) for c in ast.walk(e) if isinstance(c, ast.Constant) and isinstance(c.value, str)]
+            key = axes[-1] if axes else "else"
+            v = r.value
+            if isinstance(v, ast.Attribute) and short(v.value) == sp:
+                got[key] = "plane"
+            elif isinstance(v, ast.Tuple) and len(v.elts) == 2:
+                a, b = v.elts
+                if isinstance(a, ast.Starred) and sp in names_in(a):
+                    got[key] = "plane+samples"
+                elif isinstance(b, ast.Starred) and sp in names_in(b):
+                    got[key] = "samples+plane"
+                else:
+                    got[key] = "?"
+            else:
+                got[key] = "?"
+        ok = got.get("YX") == "plane" and got.get("YXS") == "plane+samples" and got.get("else", got.get("SYX")) == "samples+plane"
+        out.append(Instance("R-EXHAUST", f"{q}#axis-orders", OK if ok else BAD, "YX -> (y,x); YXS -> (y,x,s); otherwise (s,y,x)" if ok else f"axis-order dispatch is {got}", f.where()))
     return out
 
 
@@ -921,8 +1026,11 @@ def rule_immut(prog: Program) -> List[Instance]:
                             f"{fld} assigned only in {sorted(where)}" if ok else f"{fld} is also assigned in {extra}: the cached footprint / derived views can go stale", "odc/geo/geobox.py"))
     # extent caches what it computes
     ex = prog.func("geobox:GeoBoxBase.extent")
-    ok = any(isinstance(n, ast.Assign) and short(n.targets[0]) == "self._extent" and short(n.value) == "_extent" for n in walk_own(ex.node))
-    rets = [short(n.value) for n in walk_own(ex.node) if isinstance(n, ast.Return)]
-    ok = ok and set(rets) <= {"self._extent", "_extent"}
+    stores = [n for n in walk_own(ex.node) if isinstance(n, ast.Assign) and short(n.targets[0]) == "self._extent"]
+    rets = [n.value for n in walk_own(ex.node) if isinstance(n, ast.Return) and n.value is not None]
+    ok = len(stores) == 1 and isinstance(stores[0].value, ast.Name)
+    if ok:
+        loc = stores[0].value.id
+        ok = all(short(r) in ("self._extent", loc) for r in rets) and bool(rets)
     out.append(Instance("R-IMMUT", f"{ex.qual}#cache", OK if ok else BAD, "extent stores and returns the same computed footprint" if ok else "extent cache stores/returns different values", ex.where()))
     return out
